@@ -9,7 +9,8 @@ mode 'refcount': a RefCountedSink obtained from SharedSinkProvider per holder;
 """
 PROPS = ('C16',)
 RACE_PROBES = ('concurrent_first_requests', 'replaced_after_failure', 'surplus_close', 'reopen_after_zero',
-               'same_key_shared', 'key_recreated_after_drop', 'open_in_progress_shared')
+               'same_key_shared', 'key_recreated_after_drop', 'open_in_progress_shared',
+               'singleton_last_close', 'singleton_close_before_connection')
 SHRINK_KEYS = ('ops',)
 
 
@@ -42,6 +43,10 @@ def generate(rng, tier='quick', mode=None, **kw):
         ops.append({'t': round(t, 6), 'op': 'die', 'signal': rng.random() < 0.6, 'inflight': rng.random() < 0.7})
       elif k < 0.93:
         ops.append({'t': round(t, 6), 'op': 'open'})
+        # holders that come and go within the instant in which the pool's
+        # deferred first open has not run yet
+        while rng.random() < 0.4:
+          ops.append({'t': round(t, 6), 'op': rng.choice(['open', 'close'])})
       else:
         ops.append({'t': round(t, 6), 'op': 'close'})
     return {'world': 'w_shared', 'mode': mode, 'conns': conns, 'ops': ops,
@@ -162,8 +167,28 @@ def run_singleton(scn):
       opens += 1
     elif k == 'close':
       if opens > 0:
+        before = [(u, u.close_calls) for u in provider.existing()]
+        held = pool.next_sink
         pool.Close()
         opens -= 1
+        if opens == 0:
+          # the last holder closed: the connection the pool holds is closed
+          # (a connection the deferred open creates later is not judged here)
+          for u, n in before:
+            if u is held and u.close_calls == n:
+              REC.violation('C16', 'last_close_not_forwarded',
+                            'the last holder closed the singleton pool but its connection %r was not closed' % (u,),
+                            {'mode': 'singleton'})
+          if before and held is not None:
+            REC.probe('singleton_last_close')
+        else:
+          for u, n in before:
+            if u.close_calls != n:
+              REC.violation('C16', 'closed_with_holders',
+                            'Close() with %d holder(s) remaining closed the singleton pool\'s connection %r' % (opens, u),
+                            {'mode': 'singleton'})
+          if not before:
+            REC.probe('singleton_close_before_connection')
   gevent.sleep(2.0)
   tracker.check_exactly_once(prop='C16', check_deadline=False)
   # sharing: all requests that arrived while one connection was alive used that connection;
